@@ -498,6 +498,24 @@ def bounds(tier, seed):
             'csv_crossing': CROSSING[tier]}
 
 
+def vacuity(cov, tier):
+    """Every format x target kind must have been exercised, and the exclusions must not eat the space."""
+    c = cov['per_case_counters']
+    problems = []
+    for fam in ('op:tocsv/fromcsv', 'op:totsv/fromtsv', 'op:topickle/frompickle', 'op:tojson/fromjson',
+                'op:tojson(lines)/fromjson', 'op:tojsonarrays', 'op:tocsv+appendcsv x2', 'op:totsv+appendtsv x1',
+                'op:topickle+appendpickle x2'):
+        for kind in KINDS:
+            if not c.get('%s %s' % (fam, kind)):
+                problems.append('no case for %s on %s' % (fam, kind))
+    excluded = sum(v for k, v in c.items() if k.startswith('excluded:'))
+    if excluded > cov['evaluations']:
+        problems.append('more states excluded (%d) than evaluated (%d)' % (excluded, cov['evaluations']))
+    if cov['distinct_nontrivial'] * 2 < cov['evaluations']:
+        problems.append('fewer than half of the evaluated states are non-trivial')
+    return problems
+
+
 def _slices(n, size):
     return [(lo, min(n, lo + size)) for lo in range(0, n, size)]
 
